@@ -283,6 +283,38 @@ impl Engine for C17 {
                 }
             }
             // ---------------------------------------------------------------- loops
+            3 | 4 if w.chance(1, 10) => {
+                // the limit in force is the one the configuration holds when a pass begins: a
+                // <config> inside the running loop's body counts from the next pass on
+                let (lo, hi) = (2 + w.below(5) as u32, 20 + w.below(30) as u32);
+                let n = hi / 2 + w.below(5) as u32; // lo < n < hi
+                let item = "<rect class=\"m\" xy=\"{{$i * 2}} 0\" wh=\"1\"/>";
+                if w.chance(1, 2) {
+                    // outer limit high, the body lowers it: rejected
+                    let (cfg, prefix) = limit_cfg(&mut w, "loop", hi, via_config);
+                    Scn {
+                        label: "loop:config-in-body-lowers".into(),
+                        doc: format!("<svg>{prefix}<loop count=\"{n}\" loop-var=\"i\"><config loop-limit=\"{lo}\"/>{item}</loop></svg>"),
+                        cfg,
+                        expect_ok: false,
+                        expect_marks: None,
+                        expect_text: None,
+                        params: format!("L={hi}->{lo} passes={n} via_config={via_config}"),
+                    }
+                } else {
+                    // outer limit low, the body raises it in its first pass: accepted
+                    let (cfg, prefix) = limit_cfg(&mut w, "loop", lo, via_config);
+                    Scn {
+                        label: "loop:config-in-body-raises".into(),
+                        doc: format!("<svg>{prefix}<loop count=\"{n}\" loop-var=\"i\"><config loop-limit=\"{hi}\"/>{item}</loop></svg>"),
+                        cfg,
+                        expect_ok: true,
+                        expect_marks: Some(n as u64),
+                        expect_text: None,
+                        params: format!("L={lo}->{hi} passes={n} via_config={via_config}"),
+                    }
+                }
+            }
             3 | 4 if w.chance(1, 8) => {
                 // no loop at all: whatever svgdx repeats internally (retry passes over a chain
                 // of forward references, chained clip paths) is not what loop-limit and
@@ -405,6 +437,22 @@ impl Engine for C17 {
                     expect_marks: if expect_ok { Some(marks) } else { None },
                     expect_text: None,
                     params: format!("L={l} passes={n} via_config={via_config}"),
+                }
+            }
+            // ---------------------------------------------------------------- a limit no f32 can hold
+            _ if index % 97 == 13 => {
+                let (l, n): (u32, usize) = *w.pick(&[(16_777_217u32, 16_777_217usize), (16_777_217, 16_777_218), (16_777_219, 16_777_219), (16_777_219, 16_777_220)]);
+                let (cfg, prefix) = limit_cfg(&mut w, "var", l, true);
+                let val = "v".repeat(n);
+                let expect_ok = n <= l as usize;
+                Scn {
+                    label: "var:limit-above-2^24".into(),
+                    doc: format!("<svg>{prefix}<var v=\"{val}\"/><text xy=\"0 0\" text=\"ok\"/></svg>"),
+                    cfg,
+                    expect_ok,
+                    expect_marks: None,
+                    expect_text: None,
+                    params: format!("L={l} len={n} via_config=true"),
                 }
             }
             // ---------------------------------------------------------------- var length / reuse recursion
@@ -574,16 +622,35 @@ impl Engine for C17 {
         if rng::hash_str(&scn.params) % 4 == 0 && matches!(out, Outcome::Ok(_) | Outcome::Err(_)) {
             let dir = env.scratch.join("c17");
             let _ = std::fs::create_dir_all(&dir);
+            // every second time all three limits are spelled out (also where they are the
+            // defaults) and the environment holds limit-like variables with other values: what
+            // is on the command line is what counts
+            let explicit = rng::hash_str(&scn.params) % 8 == 0;
+            let mut args = scn.cfg.to_cli_args();
+            let mut envs: Vec<(String, String)> = vec![];
+            if explicit {
+                for (flag, val) in [("--loop-limit", scn.cfg.loop_limit), ("--var-limit", scn.cfg.var_limit), ("--depth-limit", scn.cfg.depth_limit)] {
+                    if !args.iter().any(|a| a == flag) {
+                        args.push(flag.into());
+                        args.push(val.to_string());
+                    }
+                }
+                let other = |v: u32| if v > 50 { "3".to_string() } else { "100000".to_string() };
+                envs.push(("SVGDX_LOOP_LIMIT".into(), other(scn.cfg.loop_limit)));
+                envs.push(("SVGDX_VAR_LIMIT".into(), other(scn.cfg.var_limit)));
+                envs.push(("SVGDX_DEPTH_LIMIT".into(), other(scn.cfg.depth_limit)));
+                envs.push(("SVGDX_LIMITS".into(), "3".into()));
+            }
             let cr = run_child(
                 env,
                 "svgdx",
                 ChildSpec {
-                    args: scn.cfg.to_cli_args(),
+                    args: args.clone(),
                     stdin: Some(scn.doc.as_bytes()),
                     cwd: &dir,
                     entropy: Some(1),
                     fake_time_ns: Some(1_700_000_000_000_000_000),
-                    env: vec![],
+                    env: envs,
                     env_remove: vec![],
                     timeout: std::time::Duration::from_secs(60),
                     stdout_to: None,
@@ -599,8 +666,9 @@ impl Engine for C17 {
                         "limits/command-verdict-differs",
                         &format!("c17:{family}:command-{}", if cmd_ok { "accepts" } else { "rejects" }),
                         format!(
-                            "the svgdx command (arguments {:?}) {} a document the library {}; params {}; document: {}",
-                            scn.cfg.to_cli_args(),
+                            "the svgdx command (arguments {:?}{}) {} a document the library {}; params {}; document: {}",
+                            args,
+                            if explicit { ", SVGDX_*_LIMIT set to other values in the environment" } else { "" },
                             if cmd_ok { "accepts" } else { "rejects" },
                             if out.is_ok() { "accepts" } else { "rejects" },
                             scn.params,
